@@ -55,6 +55,7 @@ var (
 	errNoCookies            = errors.New("packet does not contain cookies")
 	errNoUniqueID           = errors.New("packet does not contain a unique identifier")
 	errShortUniqueID        = errors.New("UniqueIdentifier.ID < 32 bytes")
+	errUnexpectedExtHdrLen  = errors.New("unexpected extension header length")
 	errUnexpectedExtHdrType = errors.New("unexpected extension header type")
 	errUnexpectedResponseID = errors.New("unexpected response ID")
 )
@@ -144,6 +145,9 @@ func DecodePacket(pkt *Packet, b []byte) (err error) {
 	for len(b)-pos >= 28 && !foundAuthenticator {
 		var eh extHdr
 		eh.unpack(b, pos)
+		if eh.Length < 4 {
+			return errUnexpectedExtHdrLen
+		}
 		pos += 4
 
 		switch eh.Type {
@@ -224,6 +228,9 @@ func (pkt *Packet) authenticate(b []byte, key []byte) error {
 	for len(decrytedBuf)-pos >= 28 {
 		var eh extHdr
 		eh.unpack(decrytedBuf, pos)
+		if eh.Length < 4 {
+			return errUnexpectedExtHdrLen
+		}
 		pos += 4
 
 		switch eh.Type {
